@@ -38,7 +38,7 @@ func init() {
 			}
 		}
 		extra := c04extra()
-		xfalsy := map[string]bool{"xnilT1": true}
+		xfalsy := map[string]bool{"xnilT1": true, "xniltime": true}
 		for k := range extra {
 			c := RCase{Tmpl: ctxT(k), Binds: pool}
 			o := runRenderExtra(c, extra)
